@@ -55,10 +55,22 @@ Definition bg_ok (s : str) : bool :=
 Definition color_name_ok (s : str) : bool :=
   str_ok s && negb (has_ss s) && negb (memb colon s) && negb (starts_with (lit colors_combo_prefix) s).
 
+(* what holds of EVERY decoded file name: the `\` -> `/` normalisation can leave "//" behind
+   (known finding D23), everything else of [file_ok] / [bg_ok] holds *)
+Definition file_pre (s : str) : bool := str_ok s && negb (memb backslash s).
+Definition bg_pre (s : str) : bool :=
+  negb (memb ch_lf s) && negb (memb backslash s) && negb (memb comma s) &&
+  negb (first_is 34 s) && negb (first_is 34 (rev s)).
+
 (* ---------- [General] ---------- *)
 
 Definition general_ok (g : GeneralState) : bool :=
   file_ok (g_audio_file g) && lead_in_ok (g_audio_lead_in g) && i32_ok (g_preview_time g) &&
+  in_lim32 (g_stack_leniency g) && enum4_ok (g_mode g) && enum4_ok (g_countdown g) &&
+  i32_ok (g_countdown_offset g).
+
+Definition general_pre (g : GeneralState) : bool :=
+  file_pre (g_audio_file g) && lead_in_ok (g_audio_lead_in g) && i32_ok (g_preview_time g) &&
   in_lim32 (g_stack_leniency g) && enum4_ok (g_mode g) && enum4_ok (g_countdown g) &&
   i32_ok (g_countdown_offset g).
 
@@ -115,6 +127,9 @@ Definition break_ok (b : BreakPeriod) : bool :=
 Definition events_ok (e : EventsState) : bool :=
   bg_ok (ev_background_file e) && forallb break_ok (ev_breaks e).
 
+Definition events_pre (e : EventsState) : bool :=
+  bg_pre (ev_background_file e) && forallb break_ok (ev_breaks e).
+
 (* ---------- [Colours] ---------- *)
 
 Definition color_ok (c : Color) : bool :=
@@ -136,6 +151,16 @@ Definition simple_ok (m : BeatmapV) : bool :=
   i32_ok (bmv_version m) && general_ok (hov_general h) && editor_ok (bmv_editor m) &&
   metadata_ok (bmv_metadata m) && difficulty_ok (hov_difficulty h) && events_ok (hov_events h) &&
   colors_ok (bmv_colors m).
+
+(* the decoder's image: [simple_pre] always (Proofs/EncImage.v); [simple_ok] outside D23 *)
+Definition simple_pre (m : BeatmapV) : bool :=
+  let h := bmv_ho m in
+  i32_ok (bmv_version m) && general_pre (hov_general h) && editor_ok (bmv_editor m) &&
+  metadata_ok (bmv_metadata m) && difficulty_ok (hov_difficulty h) && events_pre (hov_events h) &&
+  colors_ok (bmv_colors m).
+(* known finding D23: a file name in which the normalisation produced "//" *)
+Definition d23_class (m : BeatmapV) : bool :=
+  has_ss (g_audio_file (hov_general (bmv_ho m))) || has_ss (ev_background_file (hov_events (bmv_ho m))).
 
 (* the body lines of a section: everything after its header line *)
 Definition body (ls : list line) : list line := tl ls.
